@@ -124,3 +124,4 @@ pub(crate) fn index_alpha_stub(instance: &Argon2Instance, position: &Argon2Posit
         r
     }
 }
+
